@@ -142,8 +142,12 @@ Proof.
     apply (fold_epres (fun st' n => fst (remove_label st' n l))). intros; apply epres_remove_label.
   - (* InsertTriple *) destruct (sess st s); constructor; reflexivity.
   - (* DeleteTriple *) destruct (sess st s); constructor; reflexivity.
-  - (* DbDeleteNode *) pose proof (epres_delete_node_at_epoch st n (st_epoch st)) as H.
-    destruct (delete_node_at_epoch st n (st_epoch st)) as [st1 b]. exact H.
+  - (* DbDeleteNode *)
+    assert (H1 : epres st (db_detach st n)).
+    { unfold db_detach. destruct (c_visible_at _ _); [apply epres_delete_node_edges|apply epres_refl]. }
+    set (st1 := db_detach st n) in *.
+    pose proof (epres_delete_node_at_epoch st1 n (st_epoch st1)) as H2.
+    destruct (delete_node_at_epoch st1 n (st_epoch st1)) as [st2 b]. cbn [fst] in *. eapply epres_trans; eassumption.
   - (* DbSetProp *) apply epres_set_node_property.
   - (* DbRemoveProp *) pose proof (epres_remove_node_property st n k) as H.
     destruct (remove_node_property st n k) as [st1 b]. exact H.
